@@ -2,6 +2,7 @@ package harness
 
 import (
 	ae "github.com/godaddy/asherah/go/appencryption"
+	"strconv"
 
 	"bufio"
 	"bytes"
@@ -375,6 +376,12 @@ func kPlan(thorough bool) []*KConfig {
 	pick := func(name string, depth int) *KConfig {
 		c := kConfigByName(name)
 		c.Depth = depth
+		// development aid (mutation screening, tools/mutate.py): a shallower search; never set by the registered commands
+		if d := os.Getenv("VHARNESS_KDEPTH_DELTA"); d != "" {
+			if n, err := strconv.Atoi(d); err == nil && c.Depth+n >= 2 {
+				c.Depth += n
+			}
+		}
 		return c
 	}
 	if !thorough {
